@@ -16,8 +16,8 @@ import (
 // pkgVarAccess is one syntactic access to a package-level variable.
 type pkgVarAccess struct {
 	v      *types.Var
-	write  bool   // assignment / inc-dec / append re-assignment / element or field store through it
-	addr   bool   // &v taken
+	write  bool // assignment / inc-dec / append re-assignment / element or field store through it
+	addr   bool // &v taken
 	fn     *ast.FuncDecl
 	pk     *packages.Package
 	pos    token.Pos
@@ -379,26 +379,26 @@ type stateClass struct {
 }
 
 var pkgStateTable = map[string]stateClass{
-	"internal/resolver.fieldCache":          {"mutex", "fieldLock", "read under RLock, double-checked write under Lock"},
-	"internal/decoder/jitdec.fieldCache":    {"mutex", "fieldCacheMux", "append under the mutex in freezeFields"},
-	"loader.moduleCache":                    {"mutex", "moduleCache", "embedded sync.Mutex"},
-	"loader.lastmoduledatap":                {"atomic", "", "registerModuleLockFree uses atomic helpers"},
-	"loader.loadBatchSeq":                   {"atomic", "", "atomic.AddUint64"},
-	"internal/decoder/jitdec.valueCache":    {"initonly", "", "sole writer freezeValue is called only while package variables are initialised"},
-	"internal/encoder.encodeTypedPointer":   {"hook", "", "ForceUseVM/ForceUseJit: called from init; otherwise exported test switches"},
-	"internal/encoder.pretouchType":         {"hook", "", "ForceUseVM/ForceUseJit"},
-	"internal/encoder/vars.UseVM":           {"hook", "", "ForceUseVM/ForceUseJit"},
-	"internal/encoder/vm.compiler":          {"hook", "", "SetCompiler, called from encoder init"},
-	"internal/encoder/x86.compiler":         {"hook", "", "SetCompiler, called from encoder init"},
-	"internal/envs.UseFastMap":              {"tunable", "", "documented process-wide toggle"},
-	"internal/envs.UseOptDec":               {"tunable", "", "documented process-wide toggle"},
-	"internal/rt.EmptySlice":                {"rotable", "", "address taken, never written through"},
-	"internal/rt.staticuint64s":             {"rotable", "", "address taken, never written through"},
-	"internal/rt.zeroVal":                   {"rotable", "", "address taken, never written through"},
-	"loader.emptyByte":                      {"rotable", "", "address taken, never written through"},
-	"internal/decoder/jitdec._Instr_End":    {"rotable", "", "debug sentinel"},
-	"internal/encoder/x86._Instr_End":       {"rotable", "", "debug sentinel"},
-	"loader/internal/iasm/obj.zeroBytes":    {"rotable", "", "zero source for copy"},
+	"internal/resolver.fieldCache":        {"mutex", "fieldLock", "read under RLock, double-checked write under Lock"},
+	"internal/decoder/jitdec.fieldCache":  {"mutex", "fieldCacheMux", "append under the mutex in freezeFields"},
+	"loader.moduleCache":                  {"mutex", "moduleCache", "embedded sync.Mutex"},
+	"loader.lastmoduledatap":              {"atomic", "", "registerModuleLockFree uses atomic helpers"},
+	"loader.loadBatchSeq":                 {"atomic", "", "atomic.AddUint64"},
+	"internal/decoder/jitdec.valueCache":  {"initonly", "", "sole writer freezeValue is called only while package variables are initialised"},
+	"internal/encoder.encodeTypedPointer": {"hook", "", "ForceUseVM/ForceUseJit: called from init; otherwise exported test switches"},
+	"internal/encoder.pretouchType":       {"hook", "", "ForceUseVM/ForceUseJit"},
+	"internal/encoder/vars.UseVM":         {"hook", "", "ForceUseVM/ForceUseJit"},
+	"internal/encoder/vm.compiler":        {"hook", "", "SetCompiler, called from encoder init"},
+	"internal/encoder/x86.compiler":       {"hook", "", "SetCompiler, called from encoder init"},
+	"internal/envs.UseFastMap":            {"tunable", "", "documented process-wide toggle"},
+	"internal/envs.UseOptDec":             {"tunable", "", "documented process-wide toggle"},
+	"internal/rt.EmptySlice":              {"rotable", "", "address taken, never written through"},
+	"internal/rt.staticuint64s":           {"rotable", "", "address taken, never written through"},
+	"internal/rt.zeroVal":                 {"rotable", "", "address taken, never written through"},
+	"loader.emptyByte":                    {"rotable", "", "address taken, never written through"},
+	"internal/decoder/jitdec._Instr_End":  {"rotable", "", "debug sentinel"},
+	"internal/encoder/x86._Instr_End":     {"rotable", "", "debug sentinel"},
+	"loader/internal/iasm/obj.zeroBytes":  {"rotable", "", "zero source for copy"},
 }
 
 // functions allowed to write hook variables
